@@ -15,7 +15,7 @@ func init() {
 	fw.Register(&fw.Check{
 		ID:    "C20",
 		Level: "exploration",
-		Rule: "metamorphic: to a generated accepted document one fresh, independent declaration is added - a JSight type, a regex type, an enum, a server, a tag, a never-pasted macro, a method on an unrelated path - at every insertion point between the top-level blocks (all points for small documents, sampled beyond); " +
+		Rule: "metamorphic: to a generated accepted document one fresh, independent declaration is added - a JSight type, a regex type, an enum, a server, a tag, a never-pasted macro, a method on an unrelated path, a method whose Path names an existing type as the shape of its parameters - at every insertion point between the top-level blocks (all points for small documents, sampled beyond); " +
 			"the result must be accepted and its catalog must be the old catalog plus exactly the new entry (and, for the method, its automatic tag): every old entry deep-equal, old keys in the old order. " +
 			"Conversely every declaration of the document that nothing refers to (type, enum, server, unused tag) is deleted in turn and the catalog must lose exactly that entry. " +
 			"distinct_nontrivial = distinct (kind added or removed, relative position)",
@@ -49,6 +49,10 @@ func freshDecls() []freshDecl {
 		{"method", &gen.Block{Kind: "method", Method: &gen.Method{Verb: "GET", Path: "/freshsegment/x", OwnPath: true, Annotation: "fresh method",
 			Responses: []*gen.Response{{Code: "200", Body: gen.Body{Form: "any"}}}}},
 			map[string][]string{"interactions": {"http GET /freshsegment/x"}, "tags": {"@freshsegment"}}},
+		{"method-with-path-shortcut", &gen.Block{Kind: "method", Method: &gen.Method{Verb: "GET", Path: "/freshshape/{fp}/{fq}", OwnPath: true,
+			PathDecl:  &gen.SNode{Kind: "ref", Ref: "@pathShape"},
+			Responses: []*gen.Response{{Code: "200", Body: gen.Body{Form: "any"}}}}},
+			map[string][]string{"interactions": {"http GET /freshshape/{fp}/{fq}"}, "tags": {"@freshshape"}}},
 		{"url-block", &gen.Block{Kind: "url", Path: "/freshurl/{fid}", Methods: []*gen.Method{{Verb: "POST", Path: "/freshurl/{fid}",
 			Request: &gen.Request{Body: gen.Body{Form: "schema", Schema: &gen.SNode{Kind: "object", Props: []*gen.SProp{{Key: "x", Node: &gen.SNode{Kind: "int", Val: "1"}}}}}},
 			Responses: []*gen.Response{{Code: "201", Body: gen.Body{Form: "empty"}}}}}},
@@ -105,6 +109,9 @@ func c20Eval(t *fw.T, c *fw.Case) {
 	if c.Meta["fixed"] == "chain" {
 		m = c20ChainModel()
 	}
+	// every document has a type that a fresh method may name as the shape of its path parameters
+	m.Blocks = append(m.Blocks, &gen.Block{Kind: "type", Name: "@pathShape", Notation: "jsight", Schema: &gen.SNode{Kind: "object", Props: []*gen.SProp{
+		{Key: "fp", Node: &gen.SNode{Kind: "int", Val: "1", Optional: true}}, {Key: "fq", Node: &gen.SNode{Kind: "string", Val: "q", Note: "the q"}}}}})
 	base := gen.Render(m, nil)
 	db := run.Single([]byte(base.Text))
 	db.FixedSeed = true
